@@ -42,9 +42,54 @@ def shard(shard_i, nshards, tier, seed):
                 iso = any(all(v not in e for e in edges) for v in range(n_))
                 col.violation('treedec', {'method': meth, 'has_isolated_vertex': iso, 'kind': msg.split(':')[0].split(' ')[0]},
                               {'n': n_, 'edges': [list(e) for e in edges]}, note=f'{meth}: {msg}')
+    hard_cores(col, shard_i, nshards, tier, seed)
     r = col.result(symx.STATS)
     r['extra']['treewidth_smt_queries'] = len(treewidth_smt._cache)
     return r
+
+
+def hard_cores(col, shard_i, nshards, tier, seed):
+    """Graphs on 7-9 vertices around cores on which the min_fill heuristic is not optimal (so that the branch-and-bound search of
+    quickbb and the separator search of acb actually run): a set of edge slots is flipped symbolically and the insertion order of the
+    vertices (dict order: decides ties and the order in which reduction rules meet the vertices) is a symbolic choice."""
+    import json, os, random
+    cores = json.load(open(os.path.join(lib.VERIF, 'gen', 'hard_graphs.json')))
+    nflip = 4 if tier == 'quick' else 8
+    nord = 3 if tier == 'quick' else 6
+    for ci, core in enumerate(cores):
+        if ci % nshards != shard_i:
+            continue
+        n = core['n']
+        base = {tuple(sorted(e)) for e in core['edges']}
+        rng = random.Random(1000 * seed + ci)
+        pairs = [(i, j) for i in range(n) for j in range(i + 1, n)]
+        slots = rng.sample(pairs, nflip)
+        orders = [list(core['key_order']), list(range(n)), list(reversed(range(n)))]
+        while len(orders) < nord:
+            o = list(range(n))
+            rng.shuffle(o)
+            orders.append(o)
+        orders = orders[:nord]
+        Fl = [z3.Bool(f'flip_{a}_{b}') for a, b in slots]
+        O = z3.Int('key_order')
+        eng = symx.Engine(assumptions=[O >= 0, O < len(orders)])
+
+        def body():
+            flips = {p for p, f in zip(slots, Fl) if symx.branch(f, free=True)}
+            order = orders[symx.choose(O, 0, len(orders), free=True)]
+            edges = sorted(base ^ flips)
+            tw = treewidth_smt.treewidth(n, edges)
+            return n, edges, tw, order, c10_run.run(n, edges, tw, order)
+        for p in eng.run(body):
+            if p.exc is not None:
+                col.violation('treedec', {'exception': type(p.exc).__name__, 'part': 'hard_core'}, {'n': n, 'edges': []}, note=repr(p.exc))
+                continue
+            n_, edges, tw, order, problems = p.value
+            col.case((n_, tuple(edges), tuple(order)), nontrivial=True, sample={'n': n_, 'edges': edges, 'treewidth': tw, 'key_order': order})
+            col.check(not problems)
+            for meth, msg in problems[:3]:
+                col.violation('treedec', {'method': meth, 'part': 'hard_core', 'kind': msg.split(':')[0].split(' ')[0]},
+                              {'n': n_, 'edges': [list(e) for e in edges], 'order': order}, note=f'{meth}: {msg}')
 
 
 def main():
@@ -57,11 +102,12 @@ def main():
     code = lib.finish(
         PID, a.tier, a.seed, 'other', merged, t0,
         rule='every simple undirected graph on n<=%d vertices (symbolic adjacency bits: connected or not, isolated vertices, empty graph, cliques, trees, cycles), each with the three methods min_fill, quickbb, acb '
-             'and the helpers min_fill / minor_min_width / quickbb; non-trivial = n>=3; distinct = distinct labelled graph' % nmax,
+             'and the helpers min_fill / minor_min_width / quickbb; plus neighbourhoods (symbolic edge flips, symbolic vertex insertion order) of 16 cores on 7-9 vertices on which min_fill is not optimal, '
+             'so that the exact searches run past their heuristic start; non-trivial = n>=3; distinct = distinct labelled graph (x insertion order for the cores)' % nmax,
         explanation='The adjacency matrix is a vector of solver variables; the symbolic executor partitions the whole graph space (every path = one feasible assignment). On each path the real tree_decomposition code runs and the result is checked for '
                     'validity (tree, vertex/edge cover, running intersection); the exact treewidth used to judge acb/quickbb optimality and the lower/upper bound helpers comes from an independent SMT oracle '
                     '(ordering-based encoding: "an elimination order of width <= k exists", decided sat for k = tw and unsat for k = tw-1).',
-        bounds={'vertices': nmax}, assumptions=['vertices are ints; graphs are simple (the primal graphs factorize_rule builds)'],
+        bounds={'vertices': nmax, 'hard_cores': '16 graphs on 7-9 vertices where min_fill is not optimal, x 2^%d symbolic edge flips x %d vertex insertion orders' % ((4, 3) if a.tier == 'quick' else (8, 6))}, assumptions=['vertices are ints; graphs are simple (the primal graphs factorize_rule builds)'],
         exhaustive=True, technique='bounded symbolic execution (z3 path forking) + SMT treewidth oracle')
     sys.exit(code)
 
